@@ -469,15 +469,20 @@ Definition agree_port_parse (s : string) (shape a b : N) : bool :=
   | Panic => false
   end.
 
+(* which transcription the implementation under test is compared with: the code as it is now, or the code
+   before the repairs under debug-build (panicking) or release-build (wrapping) arithmetic.  The repaired
+   code has no overflowing operation left, so `Fixed` is the model for both build profiles. *)
+Inductive variant := Fixed | Unfixed (m : arith_mode).
+
 (* vkind: 0 = Ok(()), 1 = Err, 2 = Panic *)
-Definition agree_port_validate (unfixed : bool) (s : string) (count vkind : N) : bool :=
+Definition agree_port_validate (v : variant) (s : string) (count vkind : N) : bool :=
   match port_parse s with
-  | Ok r => kind_of (if unfixed then port_validate_unfixed Debug r count else port_validate r count) =? vkind
+  | Ok r => kind_of (match v with Fixed => port_validate r count | Unfixed m => port_validate_unfixed m r count end) =? vkind
   | _ => false
   end.
 
-Definition agree_incr (unfixed : bool) (p : option N) (kind : N) (r : option N) : bool :=
-  match (if unfixed then increment_port_unfixed Debug p else increment_port p) with
+Definition agree_incr (v : variant) (p : option N) (kind : N) (r : option N) : bool :=
+  match (match v with Fixed => increment_port p | Unfixed m => increment_port_unfixed m p end) with
   | Ok q => (kind =? 0) && option_eqb N.eqb q r
   | Err _ => kind =? 1
   | Panic => kind =? 2
